@@ -503,6 +503,12 @@ def check_c11(tier, replay=None):
             d = rng.choice([1, 2, 3])
             a = go_case(cases, f, d, "ab", mode="free", w=3, why="search score on a random light position ...")
             go_case(cases, flip_fen(f), d, "ab", mode="free", flipof=a["id"], w=3, why="... and on its colour-flipped twin")
+        # mate distances for both sides and both colours: candidate forced mates (certificate verified by TLC): the mating side must
+        # announce mate k <= N, the side being mated (position after the certified move) mate -k with k <= N - 1
+        for i, f in enumerate(mate_candidates(rng, 8000 if T else 700)):
+            cases.append({"id": len(cases) + 1, "family": "search", "k": "matego", "fen": f, "moves": [], "searchmoves": [], "ref": "ab", "mode": "mate",
+                          "cycle": [], "pre": [], "warm": [], "flipof": 0, "cap": 60000, "ttcap": 0, "w": 4,
+                          "why": "candidate forced mate: winning and losing mate scores", "key": [f, [], "mate", [], False]})
         for f in ["7k/5Q2/6K1/8/8/8/8/8 w - - 0 1", "6k1/5ppp/8/8/8/8/8/R3K3 w - - 0 1", "8/8/8/8/8/5k2/6q1/7K w - - 0 1", "kbK5/pp6/1P6/8/8/8/8/R7 w - - 0 1"]:
             a = go_case(cases, f, 3, "plain", w=40, why="mate in 1 preferred over longer mates; mated side gets mate -N")
             go_case(cases, flip_fen(f), 3, "plain", flipof=a["id"], w=40, why="colour-flipped twin")
